@@ -101,23 +101,30 @@ def run(rep, tier, seed, selftest):
     missing = gc.production_coverage(d["coverage"])
     if missing:
         raise common.ToolError("vacuity: productions never applied by any focus: %s" % missing)
-    cases = [c for c in d["cases"] if not has_builtin(c)]
-    skipped_builtin = len(d["cases"]) - len(cases)
     fnd = Findings()
     stats = {k: 0 for k in ("evaluations", "source_rejected", "first_parse_differs", "unparsable", "tree_preserved", "stable")}
+    # the modules without builtin calls, streamed into their own file
     cases_path = os.path.join(common.WORK, "C20-cases.ndjson")
     obs_path = os.path.join(common.WORK, "C20-obs.ndjson")
-    common.write_ndjson(cases_path, [{"id": c["id"], "toks": c["toks"]} for c in cases])
-    common.pvh(["roundtrip", cases_path, obs_path, seed], exe_name=gc.EXE)
+    judged = skipped_builtin = 0
+    with open(cases_path, "w") as out:
+        for c in gc.iter_cases(d["cases_path"]):
+            if has_builtin(c):
+                skipped_builtin += 1
+            else:
+                out.write(json.dumps(c, separators=(",", ":")) + "\n")
+                judged += 1
+    common.pvh(["roundtrip", cases_path, obs_path, seed], exe_name=gc.EXE, env=gc.PVH_ENV)
     rnd = random.Random(seed)
-    sample_ids = set(rnd.sample(range(len(cases)), min(4, len(cases))))
+    sample_ids = set(rnd.sample(range(judged), min(4, judged)))
     samples = []
     kinds_ok = {}
+    all_kinds = {}
     nontriv = 0
     n = 0
     first_ok = None
     with open(obs_path) as f:
-        for idx, (case, line) in enumerate(zip(cases, f)):
+        for idx, (case, line) in enumerate(zip(gc.iter_cases(cases_path), f)):
             rt = json.loads(line)
             n += 1
             if "toolerror" in rt:
@@ -129,18 +136,22 @@ def run(rep, tier, seed, selftest):
                   lambda msg, case=case, rt=rt: {"case": {"id": case["id"], "focus": case["focus"], "toks": case["toks"], "tree": case["tree"]},
                                                  "source_tokens": gc.canon(case), "message": msg,
                                                  "observed": {k: v for k, v in rt.items() if k != "t0"}})
+            ck = gc.node_kinds(case["tree"])
+            for kk, vv in ck.items():
+                all_kinds[kk] = all_kinds.get(kk, 0) + vv
             if stats["tree_preserved"] > before:
-                gc.node_kinds(case["tree"], kinds_ok)
+                for kk, vv in ck.items():
+                    kinds_ok[kk] = kinds_ok.get(kk, 0) + vv
                 if first_ok is None and rt.get("stable") is True:
                     first_ok = (case, rt)
-            if sum(gc.node_kinds(case["tree"]).values()) >= 4:
+            if sum(ck.values()) >= 4:
                 nontriv += 1
             if idx in sample_ids:
                 samples.append({"source_tokens": gc.canon(case), "roundtrip": {k: v for k, v in rt.items() if k not in ("t0",)}})
-    if n != len(cases):
-        raise common.ToolError("roundtrip returned %d observations for %d cases" % (n, len(cases)))
+    if n != judged:
+        raise common.ToolError("roundtrip returned %d observations for %d cases" % (n, judged))
     log("[replay] %d derived modules (without builtin calls) parsed, rebuilt, parsed, rebuilt: %d trees preserved, %d stable, %d rebuilt texts do not parse" %
-        (len(cases), stats["tree_preserved"], stats["stable"], stats["unparsable"]))
+        (judged, stats["tree_preserved"], stats["stable"], stats["unparsable"]))
     # ---- corpus ---------------------------------------------------------------------------------------
     corpus = gc.run_corpus("C20")
     cstats = {"files": len(corpus), "with_builtin_calls": 0, "rejected_by_parser": 0, "judged": 0}
@@ -179,13 +190,10 @@ def run(rep, tier, seed, selftest):
             if not ok:
                 raise common.ToolError("self-test %s failed" % name)
     fnd.report(rep, seed)
-    all_kinds = {}
-    for c in cases:
-        gc.node_kinds(c["tree"], all_kinds)
     coverage = {
         "states": d["states"],
         "transitions": d["transitions"],
-        "traces_validated_against_impl": len(cases) + cstats["judged"],
+        "traces_validated_against_impl": judged + cstats["judged"],
         "samples": samples,
         "evaluations": stats["evaluations"],
         "distinct_nontrivial": nontriv,
@@ -196,7 +204,7 @@ def run(rep, tier, seed, selftest):
                 "texts are byte-identical. Corpus files that parse without error and contain no builtin call are judged against their own first parse. "
                 "Non-trivial = derived modules with at least 4 syntax nodes.",
         "exhaustive": True,
-        "modules_derived": len(d["cases"]),
+        "modules_derived": d["count"],
         "modules_with_builtin_calls_excluded": skipped_builtin,
         "trees_preserved": stats["tree_preserved"],
         "second_rebuild_identical": stats["stable"],
